@@ -54,7 +54,7 @@ def build_exprdump(b):
                             f"-L{b.lib}", "-lexpress", f"-Wl,-rpath,{b.lib}"], capture_output=True, text=True)
         if r.returncode:
             raise RuntimeError("h_exprdump compile failed: " + r.stderr[-2000:])
-    return _locked_build(b, "h_exprdump-p", go)       # name changes with the harness source
+    return _locked_build(b, "h_exprdump-p2", go)       # name changes with the harness source
 
 
 def type_enum(b):
@@ -187,6 +187,51 @@ def complex_lists_from_dump(b, exp_path, env=None):
         elif cur is not None and w[:2] == ["P", "super"]:
             cur["sups"] += 1
     return [f"cl {e['name']} {int(e['sups'] > 0)}" for e in ents if e["subs"]]
+
+
+def symbol_tables_from_dump(b, exp_path, env=None):
+    """per schema (textual order) the symbol table in definition order (source line) as the driver command `pymodule` of m_c12
+    wants it: o:<key> | t:<key>:<s|e|l|a>:<head|-> | e:<key>:<super,…|->   (heads/supertypes by plain name; None if rejected)"""
+    r = subprocess.run([build_exprdump(b), "-p", exp_path], capture_output=True, text=True, errors="replace", env=env or b.env())
+    if r.returncode != 0:
+        return None
+    kinds = type_enum(b)
+    schemas, cur, last = [], None, None
+    info = {}
+    for line in r.stdout.splitlines():
+        w = line.split()
+        if w[0] == "schema":
+            cur = {"name": w[1], "syms": []}
+            schemas.append(cur)
+        elif w[0] == "ent":
+            cur["syms"].append((int(w[2]), "e", w[1]))
+        elif w[0] == "type":
+            k = kinds[int(w[2])]
+            kk = "e" if k == "enumeration_" else "l" if k == "select_" else "a" if k in ("array_", "bag_", "set_", "list_", "aggregate_") else "s"
+            cur["syms"].append((int(w[4]), "t", w[1], kk))
+        elif w[0] == "other":
+            cur["syms"].append((int(w[3]), w[2] if w[2] in ("f", "r") else "o", w[1]))
+        elif w[0] == "P":
+            if w[1] == "type":
+                last = ("t", cur["name"], w[2]); info[last] = {"head": "-"}
+            elif w[1] == "entity":
+                last = ("e", cur["name"], w[2]); info[last] = {"sups": []}
+            elif w[1] == "head" and last and last[0] == "t":
+                info[last]["head"] = "-" if w[2] == "-" else (w[2].split(".", 1)[1] if w[2].split(".", 1)[0] == last[1] else "^" + w[2])
+            elif w[1] == "super" and last and last[0] == "e":
+                info[last]["sups"].append(w[2].split(".", 1)[1] if w[2] != "-" else "-")
+    out = []
+    for s in schemas:
+        toks = []
+        for sym in sorted(s["syms"], key=lambda x: x[0]):
+            if sym[1] in ("o", "f", "r"):
+                toks.append(f"{sym[1]}:{sym[2]}")
+            elif sym[1] == "t":
+                toks.append(f"t:{sym[2]}:{sym[3]}:{info.get(('t', s['name'], sym[2]), {}).get('head', '-')}")
+            else:
+                toks.append(f"e:{sym[2]}:{','.join(info.get(('e', s['name'], sym[2]), {}).get('sups', [])) or '-'}")
+        out.append((s["name"], toks))
+    return out
 
 
 def ast_lines(path, schemas):
